@@ -189,16 +189,20 @@ def runOp (s : DSt) (op : Op) (evid : Id := 0) : DSt × String :=
   ({ s with m := m', sp := sp' }, line)
 
 /-- event id as left in the caller's event structure (internal) -/
-def evidAfter (op : Op) (out : Out) (bi : Bool := false) : Id :=
+def evidAfter (op : Op) (out : Out) (d : Disp) : Id :=
+  let bi := d.bi
   let handled := bi && (match out.ret with | .val v => decide (0 ≤ v) | _ => false)
   match op, out.log with
+  | .hash msg h, _ => (hashExec d (hashId msg) msg h).2
+  | .hashFrag frags h, _ => (hashExec d (hashIdFrag frags) frags.flatten h).2
+  | .emitCmd (b :: r) _, [] => if handled then (unknownEvent b.toUInt64 (some (b :: r))).2 else b.toUInt64
+  | .emitCmd (b :: r) h, _ => (nestedCall d (some (b :: r)) h).2
   | .emitId id _, [] => if handled then (unknownEvent id none).2 else id
   | .emitMsg (b :: r) _, [] => if handled then (unknownEvent b.toUInt64 (some (b :: r))).2 else b.toUInt64
   | .emitId id h, [.call _ _] => if h.zero then 0 else id
   | .emitId id _, _ => id
   | .emitMsg (b :: _) h, [.call _ _] => if h.zero then 0 else b.toUInt64
   | .emitMsg (b :: _) _, _ => b.toUInt64
-  | .hash _ h, [.call _ id] => if h.zero ∨ (out.ret = .val failDefault ∧ h.val < 0) then 0 else id
   | _, _ => 0
 
 def parseOp (w : List String) : Option Op :=
@@ -245,7 +249,7 @@ def stepOp (s : DSt) (op : Op) : DSt × String :=
   if decide (s.m.next ≥ 4096) && (match op with | .set _ | .cset _ | .reserve _ | .setError => true | _ => false) then (s, "bad-op")
   else
     let out := (step s.m op).2
-    runOp s op (evidAfter op out s.m.d.bi)
+    runOp s op (evidAfter op out s.m.d)
 
 def stepLine (s : DSt) (w : List String) : DSt × String :=
   match w with
